@@ -164,7 +164,10 @@ func runC15(w *World, r *Report) {
 		n := 0
 		for _, fn := range w.RepoFuncs("compose") {
 			top := topFunc(fn)
-			if top.Signature.Recv() == nil || namedOf(top.Signature.Recv().Type()) != wfn {
+			if top.Signature.Recv() == nil {
+				continue
+			}
+			if rn := namedOf(top.Signature.Recv().Type()); rn == nil || (rn != wfn && rn.Origin().Obj().Name() != "Workflow") {
 				continue
 			}
 			for _, c := range callsTo(fn, aewm) {
@@ -363,6 +366,57 @@ func runC15(w *World, r *Report) {
 		leak, wit := pathFromBlock(pathQuery{fn: cef, goal: isStaticSuccess}, falseArm)
 		r.Check(!leak, "C15.static-path-total", "checkAndExtractFieldType: non-container intermediate type", structIf.Cond.Pos(), "every way on from a non-map, non-struct type is an error or the run-time-check answer",
 			"a source/target path that descends into a scalar (or other non-container) type can pass the static check ("+wit+"): Compile accepts the mapping and the run panics in takeOne/assignOne instead of the mapping being rejected")
+	}
+
+	// ---- the overlap check compares canonical paths: a field promoted from an embedded struct is the same storage as the
+	// path through the embedded struct, so target paths are spelled out against the node's declared input type before
+	// they go into the trie
+	r.Rule("C15.overlap-canonical", "checkAndAddMappedPath inserts into the trie a path that derives from a canonicalisation against the node's input type (a function consulting reflect.Type.FieldByName and the field's Index)", 1)
+	{
+		campF := w.Fn("compose", "WorkflowNode.checkAndAddMappedPath")
+		var canon ssa.CallInstruction
+		instrs(campF, func(in ssa.Instruction) {
+			c, ok := in.(ssa.CallInstruction)
+			if !ok {
+				return
+			}
+			sc := staticCallee(c)
+			if sc == nil || !w.inRepo(sc) || origin(sc) == campF {
+				return
+			}
+			usesFieldByName, usesIndex := false, false
+			for _, g := range append([]*ssa.Function{sc}, staticCalleesOf(w, sc)...) {
+				instrs(g, func(x ssa.Instruction) {
+					if cc, ok := x.(*ssa.Call); ok && cc.Call.IsInvoke() && cc.Call.Method.Name() == "FieldByName" {
+						usesFieldByName = true
+					}
+					if f, _ := loadedFieldOfInstr(x); f != nil && f.Name() == "Index" {
+						usesIndex = true
+					}
+					if fa, ok := x.(*ssa.FieldAddr); ok && fieldVarOfAddr(fa) != nil && fieldVarOfAddr(fa).Name() == "Index" {
+						usesIndex = true
+					}
+					if fl, ok := x.(*ssa.Field); ok && fieldVarOfField(fl) != nil && fieldVarOfField(fl).Name() == "Index" {
+						usesIndex = true
+					}
+				})
+			}
+			if usesFieldByName && usesIndex {
+				canon = c
+			}
+		})
+		good := false
+		if canon != nil {
+			// the terminal marker store is reached only after the canonicalisation
+			instrs(campF, func(in ssa.Instruction) {
+				if mu, ok := in.(*ssa.MapUpdate); ok {
+					if _, isMk := mu.Value.(*ssa.MakeMap); !isMk && instrDominates(canon, mu) {
+						good = true
+					}
+				}
+			})
+		}
+		r.Check(good, "C15.overlap-canonical", "checkAndAddMappedPath canonicalises target paths before the trie walk", campF.Pos(), "promoted field names are expanded to the path through their embedded structs", "target paths are compared as written: a mapping to an embedded struct and a mapping to one of its promoted fields (['Base'] and ['F'] where F is Base.F) are not seen as a path and one of its sub-paths — Compile accepts them, and which of the two values the successor ends up with depends on Go's map iteration order (38 vs 262 of 300 runs)")
 	}
 
 	// ---- a source field reached at request time is handed on only if it can be read through reflection: the static check
